@@ -363,6 +363,7 @@ class Interp:
         self._solver_n = 0
         self._tight_cache = {}
         self.fresh_n = 0
+        self.stubs = {}             # "path::to::fn" -> python callable(args) -> Val (harness-supplied uninterpreted functions)
         from models import Models
         self.models = Models(self)
 
@@ -689,6 +690,8 @@ class Interp:
                 return self.branch(Not(fl), lambda: self.exec_stmts(stmts, rest), lambda: None, "sequence")
         if stmts and stmts[-1]["k"] == "ExprStmt" and not stmts[-1]["semi"]:
             return last
+        if stmts and stmts[-1]["k"] == "ExprStmt" and last is None:
+            return None     # the block ends in a diverging expression (return/break/continue/bail!): type `!`
         return UNIT
 
     def exec_stmt(self, st):
@@ -1227,6 +1230,8 @@ class Interp:
                 return self.call_fn(file, node, args, name="%s::%s" % (ty, name))
             if name == "default" and ty in self.structs:
                 return self.default_of(ty, e)
+        if "::".join(p) in self.stubs:
+            return self.stubs["::".join(p)](args)
         r = self.models.call_path(p, args, e)
         if r is not NotImplemented:
             return r
